@@ -1,5 +1,6 @@
 // Replay helper (never decides a property): runs jawk::go — the library of the tree under test — on a standard input whose read
 // FAILS at one byte offset, once (transient) or from then on.  usage: faultreplay <fail_at> <transient:0|1> <jawk args...> < input
+// or, with <fail_at> written w<k>: on a standard output whose write fails at byte offset k (what was accepted before is printed)
 // exit status 0: go() returned Ok; 3: go() returned Err (message on stderr); a panic keeps its own status (101)
 use std::cell::RefCell;
 use std::io::{Read, Write};
@@ -24,9 +25,25 @@ impl Read for Faulty {
         Ok(n)
     }
 }
-struct Shared(Rc<RefCell<Vec<u8>>>);
+struct Shared(Rc<RefCell<Vec<u8>>>, Option<usize>, bool, bool);
 impl Write for Shared {
-    fn write(&mut self, b: &[u8]) -> std::io::Result<usize> { self.0.borrow_mut().extend_from_slice(b); Ok(b.len()) }
+    fn write(&mut self, b: &[u8]) -> std::io::Result<usize> {
+        if let Some(k) = self.1 {
+            let have = self.0.borrow().len();
+            if have >= k && !b.is_empty() && (!self.2 || !self.3) {
+                self.3 = true;
+                return Err(std::io::Error::new(std::io::ErrorKind::Other, "injected write failure"));
+            }
+            if have < k {
+                // a short write up to the failing offset: the caller has to come back for the rest
+                let n = b.len().min(k - have);
+                self.0.borrow_mut().extend_from_slice(&b[..n]);
+                return Ok(n);
+            }
+        }
+        self.0.borrow_mut().extend_from_slice(b);
+        Ok(b.len())
+    }
     fn flush(&mut self) -> std::io::Result<()> { Ok(()) }
 }
 // the library wants `dyn Write + Send`; the replay is single-threaded
@@ -34,7 +51,8 @@ unsafe impl Send for Shared {}
 
 fn main() {
     let mut args: Vec<String> = std::env::args().collect();
-    let fail_at: usize = args[1].parse().unwrap();
+    let wfail: Option<usize> = args[1].strip_prefix('w').map(|k| k.parse().unwrap());
+    let fail_at: usize = if wfail.is_some() { usize::MAX } else { args[1].parse().unwrap() };
     let transient = args[2] == "1";
     let jargs: Vec<String> = std::iter::once("jawk".to_string()).chain(args.drain(3..)).collect();
     let mut input = Vec::new();
@@ -43,8 +61,8 @@ fn main() {
     let cli = jawk::Cli::parse_from(jargs);
     let out = Rc::new(RefCell::new(Vec::new()));
     let err = Rc::new(RefCell::new(Vec::new()));
-    let stdout: Rc<RefCell<dyn Write + Send>> = Rc::new(RefCell::new(Shared(out.clone())));
-    let stderr: Rc<RefCell<dyn Write + Send>> = Rc::new(RefCell::new(Shared(err.clone())));
+    let stdout: Rc<RefCell<dyn Write + Send>> = Rc::new(RefCell::new(Shared(out.clone(), wfail, transient, false)));
+    let stderr: Rc<RefCell<dyn Write + Send>> = Rc::new(RefCell::new(Shared(err.clone(), None, false, false)));
     let d2 = data.clone();
     let stdin = Box::new(move || Faulty { data: d2.clone(), pos: 0, fail_at, transient, failed: false });
     let res = jawk::go(cli, stdout, stderr, stdin);
